@@ -38,6 +38,17 @@ def mutants():
             l.append(("seeded/" + os.path.basename(d.rstrip("/")), pf, props, mj.get("expect", [])))
     return l
 
+def benign():
+    """Behaviour-preserving edits (selftest/benign/*.patch): the named checks must stay silent."""
+    l = []
+    for f in sorted(glob.glob(os.path.join(V, "selftest/benign/*.patch"))):
+        props = []
+        for line in open(f):
+            m = re.match(r"#\s*property:\s*(.*)", line)
+            if m: props = [x.strip() for x in m.group(1).split(",")]
+        l.append(("benign/" + os.path.basename(f)[:-6], f, props, None))
+    return l
+
 def sweep(prop):
     """Sensitivity sweep for one property (thorough tier): every mutant / seed that names the
     property is applied to a copy of /repo's CURRENT WORKING TREE; result goes into the evidence
@@ -84,9 +95,11 @@ def main():
     sel = sys.argv[1:]
     sh(os.path.join(V, "bin/build"))
     from concurrent.futures import ThreadPoolExecutor
-    todo = [m for m in mutants() if not sel or any(x in m[0] for x in sel)]
+    todo = [m for m in mutants() + benign() if not sel or any(x in m[0] for x in sel)]
     def one(m):
         name, pf, props, expect = m
+        if expect is None:
+            return one_benign(m)
         if not props:
             return ("SKIP", name, "no property / not claimed caught")
         scratch = tempfile.mkdtemp(prefix="nsmut.")
@@ -111,6 +124,30 @@ def main():
                 if r.returncode == 1 and "VIOLATION property=%s" % prop in r.stdout and all(e in r.stdout for e in expect):
                     return ("ok", name, "caught by " + ",".join(props))
             return ("FAIL", name, "not caught (expected %s)\n%s" % (expect, out_all[-1200:]))
+        finally:
+            shutil.rmtree(scratch, ignore_errors=True)
+    def one_benign(m):
+        name, pf, props, _ = m
+        scratch = tempfile.mkdtemp(prefix="nsmut.")
+        try:
+            work = os.path.join(scratch, "repo")
+            os.makedirs(work)
+            sh("git -C /repo archive HEAD | tar -x -C %s" % work)
+            r = sh("patch -p1 --no-backup-if-mismatch < %s" % pf, cwd=work)
+            if r.returncode != 0:
+                return ("FAIL", name, "patch does not apply\n" + r.stdout + r.stderr)
+            r = sh("go build ./... ", cwd=os.path.join(work, "go"))
+            if r.returncode != 0:
+                return ("FAIL", name, "benign variant does not compile\n" + r.stderr)
+            env = dict(ENV, VERIF_REPO=work, VERIF_EVIDENCE_DIR=os.path.join(scratch, "ev"))
+            for prop in props:
+                if prop == "C19":
+                    r = sh("python3 %s/shell/c19.py quick" % V, env=env)
+                else:
+                    r = sh("%s/bin/nscheck -property %s -tier quick" % (V, prop), env=env)
+                if r.returncode != 0 or "VIOLATION" in r.stdout:
+                    return ("FAIL", name, "false alarm of %s on a behaviour-preserving edit\n%s" % (prop, r.stdout[-1200:]))
+            return ("ok", name, "silent: " + ",".join(props))
         finally:
             shutil.rmtree(scratch, ignore_errors=True)
     fails = 0
